@@ -1,3 +1,475 @@
-use vh::runner::Ctx;
+//! C20 — derived argument parsers accept exactly their declared grammar and never panic.
+//!
+//! Sub-checks
+//! * `help-text`  every shape's help printer renders and names every declared word (enumerated)
+//! * `rt`         round trip: value -> argument list (options permuted, aliases drawn) -> value
+//! * `robust`     arbitrary argument lists: no panic, error renders and carries the help text of
+//!                a struct level on the path, help request => empty cause, accept/reject (and the
+//!                accepted value) agree with the reference recogniser on unambiguous lines
+//! * `cause-buf`  error causes of every length around the 128-byte cause buffer (enumerated):
+//!                a cause that fits is reported verbatim, one that does not never panics
+pub mod gen;
+pub mod model;
+pub mod shapes;
 
-pub fn run(_ctx: &Ctx) {}
+use std::cell::RefCell;
+use std::collections::BTreeMap;
+
+use serde::{Deserialize, Serialize};
+use tiny_std::UnixStr;
+use vh::runner::{no_panic, CaseReport, CaseResult, Ctx};
+use vh::util::{escape, Guarded};
+use vh::{ensure, fail};
+
+use gen::{RobCase, RtCase};
+use model::{recognise, render, well_formed, Kind, Model, Spec};
+use shapes::{shape_by_name, Outcome, ShapeEntry, SHAPES};
+
+const OP: &str = "ArgParse::arg_parse";
+/// text of the overflow fallback (used for class labels only, never as an oracle)
+const FALLBACK: &str = "Cause unknown, too many characters to write into output buffer (BUG)";
+const CAUSE_CAP: usize = 128;
+
+// ------------------------------------------------------------------------------------ argument storage
+
+/// Arguments live in buffers that END at a PROT_NONE page (terminator is the last mapped byte):
+/// a read past an argument faults. Buffers are reused; everything derived from a parse is
+/// converted to owned data (`Outcome`) before the next `load`.
+pub struct ArgStore {
+    bufs: Vec<Guarded>,
+    caps: Vec<usize>,
+}
+
+const SLOT: usize = 12 * 1024;
+
+impl ArgStore {
+    pub fn new() -> Self {
+        ArgStore { bufs: Vec::new(), caps: Vec::new() }
+    }
+    fn load(&mut self, args: &[Vec<u8>]) -> Vec<&'static UnixStr> {
+        let mut out = Vec::with_capacity(args.len());
+        for (i, a) in args.iter().enumerate() {
+            let need = a.len() + 1;
+            if i >= self.bufs.len() {
+                let cap = need.max(SLOT);
+                self.bufs.push(Guarded::at_end(cap));
+                self.caps.push(cap.div_ceil(4096) * 4096);
+            } else if need > self.caps[i] {
+                self.bufs[i] = Guarded::at_end(need);
+                self.caps[i] = need.div_ceil(4096) * 4096;
+            }
+            let mut z = Vec::with_capacity(need);
+            z.extend_from_slice(a);
+            z.push(0);
+            self.bufs[i].reset_at_end(&z);
+            // SAFETY: NUL-free contents + terminator; the reference is only used until the next load
+            let s: &'static [u8] = unsafe { core::slice::from_raw_parts(self.bufs[i].as_ptr(), need) };
+            out.push(unsafe { UnixStr::from_bytes_unchecked(s) });
+        }
+        out
+    }
+}
+
+fn call(store: &RefCell<ArgStore>, entry: &ShapeEntry, args: &[Vec<u8>]) -> Result<Outcome, vh::runner::Failure> {
+    let ptrs = store.borrow_mut().load(args);
+    no_panic(OP, || (entry.parse)(&ptrs))
+}
+
+// ------------------------------------------------------------------------------------ helpers
+
+pub struct Env {
+    store: RefCell<ArgStore>,
+    /// help text per struct level (name -> text), rendered once
+    helps: BTreeMap<&'static str, String>,
+}
+
+fn show_args(args: &[Vec<u8>]) -> String {
+    let mut s = String::from("[");
+    for (i, a) in args.iter().enumerate() {
+        if i > 0 {
+            s.push_str(", ");
+        }
+        let e = escape(a);
+        if e.len() > 80 {
+            s.push_str(&format!("\"{}…\"({} bytes)", &e[..e.char_indices().nth(60).map(|x| x.0).unwrap_or(e.len())], a.len()));
+        } else {
+            s.push_str(&format!("\"{e}\""));
+        }
+    }
+    s.push(']');
+    s
+}
+
+/// first difference between two values, as a stable short description
+fn diff(spec: &'static Spec, exp: &Model, got: &Model) -> String {
+    for (i, o) in spec.opts.iter().enumerate() {
+        if exp.opts.get(i) != got.opts.get(i) {
+            let name = o.long.map(|l| format!("--{l}")).or(o.short.map(|s| format!("-{s}"))).unwrap_or_default();
+            return format!("{} option {} ({:?})", spec.name, name, o.kind);
+        }
+    }
+    for (i, p) in spec.pos.iter().enumerate() {
+        if exp.pos.get(i) != got.pos.get(i) {
+            return format!("{} positional {}", spec.name, p.name);
+        }
+    }
+    match (&exp.sub, &got.sub) {
+        (Some(a), Some(b)) if a.cmd == b.cmd => {
+            if let (Some(ss), Some(ai), Some(bi)) = (&spec.sub, &a.inner, &b.inner) {
+                if let Some(inner) = ss.cmds[a.cmd].inner {
+                    if ai != bi {
+                        return diff(inner, ai, bi);
+                    }
+                }
+            }
+            format!("{} (no difference)", spec.name)
+        }
+        (None, None) => format!("{} (no difference)", spec.name),
+        _ => format!("{} subcommand", spec.name),
+    }
+}
+
+fn has_leading_dash_value(m: &Model) -> bool {
+    m.opts.iter().flatten().chain(m.pos.iter().flatten()).any(|v| v.0.first() == Some(&b'-')) || m.sub.as_ref().and_then(|s| s.inner.as_ref()).map(|i| has_leading_dash_value(i)).unwrap_or(false)
+}
+
+fn has_non_ascii_value(m: &Model) -> bool {
+    m.opts.iter().flatten().chain(m.pos.iter().flatten()).any(|v| v.0.iter().any(|c| *c >= 0x80)) || m.sub.as_ref().and_then(|s| s.inner.as_ref()).map(|i| has_non_ascii_value(i)).unwrap_or(false)
+}
+
+fn depth(m: &Model) -> usize {
+    match &m.sub {
+        None => 0,
+        Some(s) => 1 + s.inner.as_ref().map(|i| depth(i)).unwrap_or(0),
+    }
+}
+
+// ------------------------------------------------------------------------------------ help-text
+
+#[derive(Clone, Debug, Serialize, Deserialize)]
+pub struct HelpCase {
+    pub level: String,
+}
+
+fn all_levels() -> Vec<&'static Spec> {
+    let mut v: Vec<&'static Spec> = Vec::new();
+    for s in SHAPES.iter() {
+        for l in s.spec.tree() {
+            if !v.iter().any(|x| x.name == l.name) {
+                v.push(l);
+            }
+        }
+    }
+    v
+}
+
+fn check_help(spec: &'static Spec) -> CaseResult {
+    let mut rep = CaseReport::new();
+    let text = no_panic("HelpPrinter::fmt", || (spec.help)())?;
+    let Ok(text) = text else {
+        fail!(format!("HelpPrinter::fmt|display-error|{}", spec.name), "help printer of {} reports a formatting error", spec.name);
+    };
+    ensure!(text.contains("Usage:"), format!("HelpPrinter::fmt|no-usage-line|{}", spec.name), "help of {} has no usage line: {:?}", spec.name, text);
+    for o in spec.opts {
+        for t in o.tokens() {
+            let t = String::from_utf8(t).unwrap();
+            // the token must appear as a word of its own (not only as a prefix of a longer one)
+            let found = text.split(|c: char| c.is_whitespace() || c == ',').any(|w| w == t);
+            ensure!(found, format!("HelpPrinter::fmt|option-not-listed|{}", spec.name), "help of {} does not list {}: {:?}", spec.name, t, text);
+        }
+    }
+    let lower = text.to_lowercase();
+    for p in spec.pos {
+        ensure!(lower.contains(&p.name.to_lowercase()), format!("HelpPrinter::fmt|positional-not-listed|{}", spec.name), "help of {} does not name positional {}: {:?}", spec.name, p.name, text);
+    }
+    if let Some(ss) = &spec.sub {
+        for c in ss.cmds {
+            let found = text.split_whitespace().any(|w| w == c.name);
+            ensure!(found, format!("HelpPrinter::fmt|command-not-listed|{}", spec.name), "help of {} does not list command {}: {:?}", spec.name, c.name, text);
+        }
+    }
+    rep.nontrivial = true;
+    rep.class_if(spec.sub.is_some(), "with-commands");
+    rep.class_if(!spec.pos.is_empty(), "with-positionals");
+    rep.class_if(!spec.opts.is_empty(), "with-options");
+    Ok(rep)
+}
+
+// ------------------------------------------------------------------------------------ round trip
+
+fn check_rt(ctx: &Ctx, env: &Env, case: &RtCase) -> CaseResult {
+    let mut rep = CaseReport::new();
+    let Some(entry) = shape_by_name(&case.shape) else {
+        rep.class("out-of-domain");
+        return Ok(rep);
+    };
+    let spec = entry.spec;
+    if !well_formed(spec, &case.value) {
+        rep.class("out-of-domain");
+        return Ok(rep);
+    }
+    let r = render(spec, &case.value, &case.layout);
+    // the reference must read the rendering back as the value, unambiguously; anything else is a
+    // defect of the harness, never of the code under test
+    let rec = recognise(spec, &r.args);
+    if rec.ambiguous || rec.result.as_ref().ok() != Some(&case.value) {
+        eprintln!("[C20:rt] harness self-check failed for {:?}: reference reads {:?} (ambiguous={})", case, rec.result, rec.ambiguous);
+        ctx.inconclusive();
+        rep.class("harness-selfcheck-failed");
+        return Ok(rep);
+    }
+    match call(&env.store, entry, &r.args)? {
+        Outcome::Parsed(got) => {
+            ensure!(got == case.value, format!("{OP}|round-trip-mismatch|{}", diff(spec, &case.value, &got)), "{} parsed {} as {:?}, expected {:?}", spec.name, show_args(&r.args), got, case.value);
+        }
+        Outcome::Error { display, .. } => {
+            fail!(format!("{OP}|valid-line-rejected|{}", spec.name), "{} rejected the rendering {} of {:?}: {:?}", spec.name, show_args(&r.args), case.value, display);
+        }
+    }
+    rep.nontrivial_if(r.reordered);
+    rep.class(entry.class);
+    rep.class_if(r.reordered, "options-out-of-declaration-order");
+    rep.class_if(r.used_short, "alias-short");
+    rep.class_if(r.used_long, "alias-long");
+    rep.class_if(has_leading_dash_value(&case.value), "value-with-leading-dash");
+    rep.class_if(has_non_ascii_value(&case.value), "value-non-ascii");
+    rep.class_if(case.value.opts.iter().zip(spec.opts).any(|(v, o)| o.kind == Kind::Many && v.len() >= 2), "repeated-option-2+");
+    rep.class_if(case.value.opts.iter().zip(spec.opts).any(|(v, o)| o.kind == Kind::Opt && v.is_empty()), "optional-option-absent");
+    rep.class_if(spec.pos.iter().zip(&case.value.pos).any(|(p, v)| p.optional && v.is_none()), "optional-positional-absent");
+    rep.class_if(spec.pos.iter().zip(&case.value.pos).any(|(p, v)| p.optional && v.is_some()), "optional-positional-present");
+    rep.class_if(spec.sub.as_ref().map(|s| s.optional).unwrap_or(false) && case.value.sub.is_none(), "optional-subcommand-absent");
+    rep.class_if(depth(&case.value) >= 2, "nested-subcommand");
+    rep.class_if(r.args.iter().any(|a| a.len() > 1000), "long-value");
+    rep.class_if(r.args.iter().any(|a| a.is_empty()), "empty-value");
+    Ok(rep)
+}
+
+// ------------------------------------------------------------------------------------ robustness
+
+fn check_rob(env: &Env, case: &RobCase) -> CaseResult {
+    let mut rep = CaseReport::new();
+    let Some(entry) = shape_by_name(&case.shape) else {
+        rep.class("out-of-domain");
+        return Ok(rep);
+    };
+    let spec = entry.spec;
+    let args: Vec<Vec<u8>> = case.args.iter().map(|a| a.0.clone()).collect();
+    if args.iter().any(|a| a.contains(&0)) {
+        rep.class("out-of-domain"); // not representable as process arguments
+        return Ok(rep);
+    }
+    let rec = recognise(spec, &args);
+    let out = call(&env.store, entry, &args)?;
+    let shown = || show_args(&args);
+    match &out {
+        Outcome::Parsed(got) => {
+            if !rec.ambiguous {
+                match &rec.result {
+                    Ok(exp) => {
+                        ensure!(got == exp, format!("{OP}|wrong-value|{}", diff(spec, exp, got)), "{} parsed {} as {:?}, the declared grammar reads {:?}", spec.name, shown(), got, exp);
+                    }
+                    Err(r) => {
+                        fail!(format!("{OP}|accepted-outside-grammar|{}: {}", rec.chain[r.level].name, r.why), "{} accepted {} as {:?}; the declared grammar rejects it at level {} ({})", spec.name, shown(), got, rec.chain[r.level].name, r.why);
+                    }
+                }
+            }
+            rep.class("accepted");
+        }
+        Outcome::Error { display, help, cause, cause_len } => {
+            let (Ok(display), Ok(help), Ok(cause)) = (display, help, cause) else {
+                fail!(format!("ArgParseError::fmt|display-error|{}", spec.name), "the error of {} on {} does not render: display={:?} help={:?} cause={:?}", spec.name, shown(), display, help, cause);
+            };
+            ensure!(*cause_len <= CAUSE_CAP && cause.len() == *cause_len, format!("ArgParseError::fmt|cause-length|{}", spec.name), "{} on {}: cause buffer reports {} bytes, renders {} bytes", spec.name, shown(), cause_len, cause.len());
+            ensure!(display.starts_with(help.as_str()) && display.len() == help.len() + cause.len() && display.ends_with(cause.as_str()), format!("ArgParseError::fmt|help-text-missing|{}", spec.name), "the error of {} on {} does not render as help text followed by cause: {:?}", spec.name, shown(), display);
+            // the help text is that of a struct level of this shape ...
+            let tree = spec.tree();
+            ensure!(tree.iter().any(|l| env.helps.get(l.name) == Some(help)), format!("{OP}|foreign-help-text|{}", spec.name), "the error of {} on {} carries a help text of no level of the shape: {:?}", spec.name, shown(), help);
+            if !rec.ambiguous {
+                match &rec.result {
+                    Ok(exp) => {
+                        fail!(format!("{OP}|rejected-inside-grammar|{}", spec.name), "{} rejected {} ({:?}); the declared grammar reads it as {:?}", spec.name, shown(), cause, exp);
+                    }
+                    Err(r) => {
+                        // ... namely of the level that detects the error (or, for a non-help error, of an
+                        // outer level that lacks a required option: either may be reported first)
+                        let mut ok_levels = vec![r.level];
+                        if !r.help {
+                            ok_levels.extend(rec.outer_missing.iter().copied());
+                        }
+                        let level_ok = ok_levels.iter().any(|l| env.helps.get(rec.chain[*l].name) == Some(help));
+                        ensure!(level_ok, format!("{OP}|wrong-help-level|{}", rec.chain[r.level].name), "{} on {}: error ({}) belongs to level {}, the help text shown is {:?}", spec.name, shown(), r.why, rec.chain[r.level].name, help);
+                        if r.help {
+                            ensure!(*cause_len == 0, format!("{OP}|help-request-with-cause|{}", rec.chain[r.level].name), "{} on {}: help request answered with cause {:?}", spec.name, shown(), cause);
+                            rep.class("help-request");
+                            rep.class_if(r.level > 0, "help-request-in-subcommand");
+                        }
+                    }
+                }
+            }
+            let overflow = cause == FALLBACK;
+            rep.nontrivial_if(overflow);
+            rep.class("rejected");
+            rep.class_if(overflow, "overflow-cause");
+            rep.class_if(rec.saw_missing_value_at_end && !rec.ambiguous, "option-missing-value-at-end");
+        }
+    }
+    rep.class(entry.class);
+    rep.class_if(rec.ambiguous, "ambiguous-excluded-from-comparison");
+    if !rec.ambiguous {
+        match &rec.result {
+            Ok(_) => rep.class("reference-accepts"),
+            Err(r) => {
+                rep.class("reference-rejects");
+                rep.class(match r.why {
+                    "option without value at end of line" => "why-missing-value",
+                    "malformed option value" | "malformed positional value" => "why-malformed-value",
+                    "neither option nor subcommand" | "unexpected argument" => "why-unknown-argument",
+                    "required option missing" | "required positional missing" | "required subcommand missing" => "why-required-missing",
+                    _ => "why-help",
+                });
+            }
+        }
+    }
+    rep.class_if(args.iter().any(|a| std::str::from_utf8(a).is_err()), "non-utf8-arg");
+    rep.class_if(args.iter().any(|a| a.is_empty()), "empty-arg");
+    rep.class_if(args.iter().any(|a| a.len() >= 1024), "arg-1kB+");
+    rep.class_if(args.iter().any(|a| model::is_help(a)), "help-token-present");
+    rep.class_if(rec.chain.len() > 1, "entered-subcommand");
+    Ok(rep)
+}
+
+// ------------------------------------------------------------------------------------ cause buffer
+
+#[derive(Clone, Debug, Serialize, Deserialize)]
+pub struct CauseCase {
+    /// which error echoes the filler: "option-value" | "positional-value" | "unknown-argument"
+    pub kind: String,
+    /// filler bytes in the would-be cause
+    pub n: usize,
+    /// number of pieces the filler is written in (custom FromStr error only)
+    pub k: usize,
+}
+
+fn cause_line(kind: &str, n: usize, k: usize) -> Option<(&'static ShapeEntry, Vec<Vec<u8>>)> {
+    match kind {
+        "option-value" => Some((shape_by_name("Custom")?, vec![b"--mode".to_vec(), format!("fail:{n}:{k}").into_bytes()])),
+        "positional-value" => Some((shape_by_name("Custom")?, vec![b"-m".to_vec(), b"fast".to_vec(), format!("fail:{n}:{k}").into_bytes()])),
+        "unknown-argument" => Some((shape_by_name("Flags")?, vec![vec![b'#'; n]])),
+        _ => None,
+    }
+}
+
+/// The cause text with filler length `n` is the cause text with filler length 0 plus `n` filler
+/// bytes (the filler `#` is written by the harness' own `FromStr` error / is the echoed
+/// argument). If that fits into the 128-byte buffer it must be reported verbatim; if not, any
+/// cause of at most 128 bytes is fine, a panic is not.
+fn check_cause(env: &Env, case: &CauseCase) -> CaseResult {
+    let mut rep = CaseReport::new();
+    let (Some((entry, base_args)), Some((_, args))) = (cause_line(&case.kind, 0, case.k), cause_line(&case.kind, case.n, case.k)) else {
+        rep.class("out-of-domain");
+        return Ok(rep);
+    };
+    let get = |a: &[Vec<u8>]| -> Result<(String, String, String, usize), vh::runner::Failure> {
+        match call(&env.store, entry, a)? {
+            Outcome::Parsed(m) => Err(vh::runner::Failure::new(format!("{OP}|accepted-outside-grammar|{}: cause-buf {}", entry.spec.name, case.kind), format!("{} accepted {} as {:?}", entry.spec.name, show_args(a), m))),
+            Outcome::Error { display: Ok(d), help: Ok(h), cause: Ok(c), cause_len } => Ok((d, h, c, cause_len)),
+            Outcome::Error { display, help, cause, .. } => Err(vh::runner::Failure::new(format!("ArgParseError::fmt|display-error|{}", entry.spec.name), format!("the error of {} on {} does not render: display={:?} help={:?} cause={:?}", entry.spec.name, show_args(a), display, help, cause))),
+        }
+    };
+    let (_, _, base, base_len) = get(&base_args)?;
+    if base_len + 1 > CAUSE_CAP || base == FALLBACK {
+        // the fixed part alone does not leave room for any filler: nothing to compare
+        rep.class("base-does-not-fit");
+        return Ok(rep);
+    }
+    let (display, help, cause, cause_len) = get(&args)?;
+    ensure!(cause_len <= CAUSE_CAP && cause.len() == cause_len, format!("ArgParseError::fmt|cause-length|{}", entry.spec.name), "{}: cause buffer reports {} bytes, renders {} bytes", show_args(&args), cause_len, cause.len());
+    ensure!(display.len() == help.len() + cause.len() && display.starts_with(help.as_str()) && display.ends_with(cause.as_str()) && env.helps.get(entry.spec.name) == Some(&help), format!("ArgParseError::fmt|help-text-missing|{}", entry.spec.name), "the error on {} does not render as help text followed by cause: {:?}", show_args(&args), display);
+    let want = base_len + case.n;
+    let strip = |s: &str| s.replace('#', "");
+    let fillers = |s: &str| s.bytes().filter(|c| *c == b'#').count();
+    if want <= CAUSE_CAP {
+        let verbatim = cause_len == want && strip(&cause) == strip(&base) && fillers(&cause) == fillers(&base) + case.n;
+        let shape = if want == CAUSE_CAP { "cause fills the buffer exactly" } else { "cause shorter than the buffer" };
+        ensure!(verbatim, format!("ArgParseError::new_cause|fitting-cause-not-verbatim|{}: {}", case.kind, shape), "{}: the cause would be {:?} plus {} filler bytes = {} bytes (buffer: {}), reported cause is {:?} ({} bytes)", show_args(&args), base, case.n, want, CAUSE_CAP, cause, cause_len);
+        rep.class("fits");
+        rep.class_if(want == CAUSE_CAP, "exact-fit-128");
+    } else {
+        rep.class("overflows");
+        rep.class_if(want == CAUSE_CAP + 1, "overflow-by-one");
+        rep.class_if(cause == FALLBACK, "fallback-text");
+    }
+    rep.nontrivial_if(want + 8 >= CAUSE_CAP && want <= CAUSE_CAP + 8);
+    rep.class_if(case.k > 1, "multi-piece");
+    Ok(rep)
+}
+
+fn cause_cases() -> Vec<CauseCase> {
+    let mut v = Vec::new();
+    for kind in ["option-value", "positional-value"] {
+        for k in [1usize, 2, 3, 7] {
+            for n in 0..=200usize {
+                v.push(CauseCase { kind: kind.to_string(), n, k });
+            }
+            for n in [255usize, 256, 257, 1000, 4096, 10_000] {
+                v.push(CauseCase { kind: kind.to_string(), n, k });
+            }
+        }
+    }
+    for n in (0..=200usize).chain([255, 256, 257, 1000, 4096, 10_000]) {
+        v.push(CauseCase { kind: "unknown-argument".to_string(), n, k: 1 });
+    }
+    v
+}
+
+// ------------------------------------------------------------------------------------ run
+
+pub fn run(ctx: &Ctx) {
+    let mut helps = BTreeMap::new();
+    for l in all_levels() {
+        // a help printer that fails to render is reported by `help-text`; here it just has no text
+        if let Ok(Ok(t)) = vh::runner::catch(|| (l.help)()) {
+            helps.insert(l.name, t);
+        }
+    }
+    let env = Env { store: RefCell::new(ArgStore::new()), helps };
+
+    if !ctx.is_replay() {
+        // enumerations are small: every worker runs its share
+        for (i, l) in all_levels().into_iter().enumerate() {
+            if i % ctx.nworkers as usize != ctx.worker as usize {
+                continue;
+            }
+            if !ctx.run_one("help-text", &HelpCase { level: l.name.to_string() }, || check_help(l)) {
+                break;
+            }
+        }
+        let cc = cause_cases();
+        let total = cc.len();
+        let mut ok = true;
+        for (i, c) in cc.iter().enumerate() {
+            if i % ctx.nworkers as usize != ctx.worker as usize {
+                continue;
+            }
+            ok = ctx.run_one("cause-buf", c, || check_cause(&env, c));
+            if !ok {
+                break;
+            }
+        }
+        if ok {
+            ctx.note_exhaustive(format!("cause-buf: all {total} combinations of echoing error (custom FromStr error at an option, at a positional, in 1/2/3/7 pieces; unknown argument) x filler length 0..=200 and 255,256,257,1000,4096,10000"));
+        }
+    } else {
+        if let Some(c) = ctx.replay_case::<HelpCase>("help-text") {
+            if let Some(l) = all_levels().into_iter().find(|l| l.name == c.level) {
+                ctx.run_one("help-text", &c, || check_help(l));
+            }
+        }
+        if let Some(c) = ctx.replay_case::<CauseCase>("cause-buf") {
+            ctx.run_one("cause-buf", &c, || check_cause(&env, &c));
+        }
+    }
+
+    ctx.run_prop("rt", ctx.cases(50_000, 1_500_000), gen::rt_case(), |c: &RtCase| check_rt(ctx, &env, c));
+    ctx.run_prop("robust", ctx.cases(80_000, 2_500_000), gen::rob_case(), |c: &RobCase| check_rob(&env, c));
+}
